@@ -499,6 +499,11 @@ eqv('e14_other_safe_separator', MU, """                __key_parts.push((#arg_pa
             __key_parts.join("|")""", """                __key_parts.push((#arg_pats).to_cache_key());
             )*
             __key_parts.join("\\u{1f}|")""", 'a different separator that Debug never emits unescaped')
+eqv('e15_rename_eviction_routine', 'cachelito-core/src/*', 'handle_entry_limit_eviction', 'enforce_entry_limit', 'private method renamed in all three caches')
+eqv('e16_rename_selectors', 'cachelito-core/src/*', 'find_arc_eviction_key', 'pick_arc_victim', 'selector renamed (utils + async)')
+eqv('e17_rename_remove_helper', 'cachelito-core/src/*', 'remove_from_maps', 'drop_key_everywhere', 'private helper renamed')
+eqv('e18_rename_invalidate_caches', 'cachelito-core/src/*', 'invalidate_caches', 'run_clear_callbacks', 'private registry routine renamed')
+eqv('e19_rename_is_already', 'cachelito-core/src/*', 'is_already_key_inserted', 'replace_existing_entry', 'private async helper renamed')
 
 
 def apply(m):
@@ -506,6 +511,20 @@ def apply(m):
         shutil.rmtree('/tmp/cachelito_mut')
     os.makedirs('/tmp/cachelito_mut')
     subprocess.check_call(['rsync', '-a', '--exclude', 'target', '--exclude', '.git', '/repo/', SCRATCH + '/'])
+    if m['file'].endswith('/*'):
+        # rename across a whole source directory
+        tot = 0
+        root = os.path.join(SCRATCH, m['file'][:-2])
+        for dp, dn, fn in os.walk(root):
+            for f in fn:
+                if f.endswith('.rs'):
+                    q = os.path.join(dp, f)
+                    txt = open(q).read()
+                    c = txt.count(m['old'])
+                    if c:
+                        tot += c
+                        open(q, 'w').write(txt.replace(m['old'], m['new']))
+        return None if tot else 'anchor matched 0 times'
     p = os.path.join(SCRATCH, m['file'])
     s = open(p).read()
     c = s.count(m['old'])
